@@ -383,9 +383,14 @@ void build_pyramid(numpy::aligned_array<T> integral,
                 const int nr_octaves,
                 const int nr_intervals,
                 const int initial_step_size) {
-    assert(nr_octaves > 0);
-    assert(nr_intervals > 0);
-    assert(initial_step_size > 0);
+    if (nr_octaves <= 0 || nr_intervals <= 0 || initial_step_size <= 0) {
+        throw PythonException(PyExc_ValueError, "mahotas.surf: nr_octaves, nr_scales and initial_step_size must all be positive");
+    }
+    // step and filter sizes grow as 2**octave: they must remain representable
+    // (no image can hold them long before these limits)
+    if (nr_octaves > 16 || nr_intervals > 4096 || initial_step_size > 4096) {
+        throw PythonException(PyExc_ValueError, "mahotas.surf: nr_octaves, nr_scales or initial_step_size is too large");
+    }
 
     hessian_pyramid::pyramid_type& pyramid = hpyramid.pyr;
     const int N0 = integral.dim(0);
